@@ -26,6 +26,14 @@ CHECKS = {
          "Frame header grid (17 lengths x 16 types x flags x 5 stream ids x 2 size limits) with all payloads up to 2 bytes and structural-byte sweeps beyond, each followed by a sentinel frame: never panics; error or a correct reading of exactly 9+length bytes; must-error for oversize, impossible fixed sizes and padding; unknown types skipped and positioned at the sentinel; allocation bounded by the limit; deterministic LIFO pools report double release and two acquirers never get the same object. Every cut offset of a 13-frame stream. HPACK: every byte string up to 2/3 bytes through Next at two table states: progress or error, bounded output.",
          "Trusted: peer.SemOf; vsched.Pool (deterministic LIFO + double-release tracker) replaces sync.Pool through the overlay. Allocation is measured for lengths >= 16384 only.",
          "DESIGN.md §4 C16"),
+ "C08": ("exhaustive event-sequence exploration (ELX) of the real ServeConn under the controlled scheduler, run to exact quiescence after every frame, against an RFC 7540 5.1/6 reference with all leniencies",
+         "Every sequence of up to 3 (quick) / 4 (thorough) environment events over ~130 role-named frames (HEADERS/CONTINUATION/DATA/trailers variants, RST_STREAM, WINDOW_UPDATE 0/1/exact-max/overflow, PRIORITY other/self, on roles opened-earlier / next id / id after a gap / skipped id / even id / closed in the prelude, plus PING, SETTINGS, ACKs, connection WINDOW_UPDATE, unknown types, handler completions) under three preludes, and a single-stream alphabet to depth 5 / 7. After each event the reaction (RST_STREAM code, GOAWAY code, close, dispatch, ACKs) must be in the allowed set; legal request sequences must be dispatched exactly once and nothing else may be.",
+         "Trusted: the allowed-reaction table in checks/c08.go (DESIGN.md §4 C08 lists every leniency). Between events the implementation runs under the canonical internal schedule; other internal schedules are explored by the SPX harnesses of C19.",
+         "DESIGN.md §4 C08"),
+ "C01": ("exhaustive enumeration (ELX) of single-deviation encodings/fragmentations and of all linear extensions x handler completion orders x response shapes for 2-3 multiplexed streams on the real ServeConn, with an x/net-HPACK peer",
+         "Family 'encoding': each vocabulary request with every single deviation from the default encoding (4 representations x indexed/literal name x Huffman per field; every HEADERS/CONTINUATION split offset incl. empty fragments and, thorough, every pair of offsets; size update at block start split everywhere; pad lengths 0/1/255; priority section; every composition of the body into <= 3 DATA frames incl. empty and padded ones; END_STREAM on last DATA / empty DATA / trailers incl. trailers+CONTINUATION). Family 'interleave': 2 (quick) / 3 (thorough) streams of [block, DATA, DATA+ES] where later blocks use dynamic-table entries of earlier ones: all linear extensions x all handler completion orders x 9 response shapes (buffered small/large, streamed declared/unknown/empty, EOF with last chunk, one byte per read, connection-specific and non-letter header names) x 2 preludes. Oracle: one handler invocation per request with exactly the fields/body/trailers sent; per stream HEADERS then DATA equal to the handler's response with END_STREAM exactly once.",
+         "Header names compared case-insensitively, order only among same-name fields (fasthttp API); cookie crumbs joined with '; '. Canonical internal schedule between events.",
+         "DESIGN.md §4 C01"),
 }
 
 NOT_YET = "check not built yet (work in progress; see DESIGN.md §6 build order)"
